@@ -177,7 +177,6 @@ Section Parse.
                                                do y <- parse_kind f (f_kind fl) (snd kv);
                                                Ok (fst kv, y)) members;
                               Ok (MDict l')
-                            | JStr [] | JArr [] => Ok (MDict [])        (* dict("") / dict([]) *)
                             | _ => reject
                             end
                           end
